@@ -168,3 +168,31 @@ theorem fixpoint_fails_ackRanges :
 theorem fixpoint_fails_ackDelay : fixpointFails witnessCtx witnessBytes = true := by decide +kernel
 
 end Uquic.Proofs.Wire
+
+namespace Uquic.Proofs.Wire
+open Uquic.Model.Wire Uquic.Spec.WireMon
+
+/-- the regenerated allowed-at-encryption-level table equals RFC 9000 Table 3 on every frame type
+    0x01 … 0x1e and every level, except at the three documented 0-RTT entries, where it has exactly
+    the documented value -/
+theorem encLevelTable_is_rfc :
+    ∀ t ∈ List.range 0x1f, ∀ lvl ∈ [1, 2, 3, 4], t ≠ 0 → isAllowedAtEncLevel t lvl = some (encLevelExpected t lvl) := by
+  decide +kernel
+
+/-- FULL statement: the table is Table 3 -/
+def encLevelTable_is_rfc_full : Prop :=
+  ∀ t ∈ List.range 0x1f, ∀ lvl ∈ [1, 2, 3, 4], t ≠ 0 → isAllowedAtEncLevel t lvl = some (rfcTable3 t lvl)
+
+/-- … which is false on the unchanged tree, at exactly the documented deviations -/
+theorem encLevelTable_is_rfc_witness :
+    ¬ encLevelTable_is_rfc_full ∧
+    (∀ t ∈ List.range 0x1f, ∀ lvl ∈ [1, 2, 3, 4], t ≠ 0 →
+      (isAllowedAtEncLevel t lvl ≠ some (rfcTable3 t lvl) ↔ (t, lvl) ∈ encLevelDeviations)) := by
+  constructor
+  · intro h
+    have := h 0x1e (by decide) 3 (by decide) (by decide)
+    revert this
+    decide +kernel
+  · decide +kernel
+
+end Uquic.Proofs.Wire
